@@ -66,6 +66,34 @@ def joinObs (items : List String) (fin : String) : String :=
   if t.utf8ByteSize ≤ 32768 then t
   else s!"D{items.length}:{t.utf8ByteSize}:{cnfFnvHex t}|{fin}"
 
+/-- How often the item function is called again after its final outcome (`eng_cnf.rs::RECALLS`). -/
+def recalls : Nat := 2
+
+def showSat : Option Bool → String
+  | some true => "sat" | some false => "unsat" | none => "none"
+
+/-- `|AGAIN:<outcome>` per re-call of `next_clause` on the state the model is left in after the
+final outcome (the monad keeps the reader state of a failed call; the parser record of a failed
+call is the one it started with — `clause_count` only changes when a clause is returned). -/
+def cnfAgain : Nat → Parser → LR → String
+  | 0, _, _ => ""
+  | n + 1, p, lr =>
+    match (p.nextClause).run lr with
+    | (.ok (some c, p'), lr') => "|AGAIN:" ++ shortItem s!"C:{c.tag}:{showLits c.lits}" ++ cnfAgain n p' lr'
+    | (.ok (none, p'), lr') => "|AGAIN:END" ++ cnfAgain n p' lr'
+    | (.error (.panic _), _) => "|AGAIN:E:panic"
+    | (.error e, lr') => "|AGAIN:" ++ showPErr e ++ cnfAgain n p lr'
+
+/-- The same for `parse_log` called again on the same `LineReader`. -/
+def logAgain (l : LitTy) (cfg : Bool) : Nat → LR → String
+  | 0, _ => ""
+  | n + 1, lr =>
+    match (parseLog l cfg).run lr with
+    | (.ok log, lr') =>
+      "|AGAIN:" ++ shortItem s!"L:{showSat log.satisfiable}:{showLits log.assignment}" ++ logAgain l cfg n lr'
+    | (.error (.panic _), _) => "|AGAIN:E:panic"
+    | (.error e, lr') => "|AGAIN:" ++ showPErr e ++ logAgain l cfg n lr'
+
 def runCnfCase (line : String) : String × String :=
   let fs := fields line
   let fmtS := field fs "fmt"
@@ -88,10 +116,12 @@ def runCnfCase (line : String) : String × String :=
   if fmtS == "log" then
     match (parseLog l cfg).run lr0 with
     | (.ok log, lr) =>
-      let s := match log.satisfiable with | some true => "sat" | some false => "unsat" | none => "none"
+      let s := showSat log.satisfiable
       let a := (at_ (data, 0) lr).1
-      (joinObs [s!"S:{s}{a}", shortItem s!"A:{showLits log.assignment}" ++ a] "END", s!"fmt=log ok=1 lits={log.assignment.length}")
-    | (.error e, _) => (showPErr e, s!"fmt=log err={showPErr e}")
+      (joinObs [s!"S:{s}{a}", shortItem s!"A:{showLits log.assignment}" ++ a] "END" ++ logAgain l cfg recalls lr,
+       s!"fmt=log ok=1 lits={log.assignment.length}")
+    | (.error (.panic s), _) => (showPErr (.panic s), s!"fmt=log err=E:panic")
+    | (.error e, lr) => (showPErr e ++ logAgain l cfg recalls lr, s!"fmt=log err={showPErr e}")
   else
     let fmt := if fmtS == "wcnf" then Format.wcnf else if fmtS == "gcnf" then Format.gcnf else Format.cnf
     match (Parser.new fmt l cfg).run lr0 with
@@ -99,19 +129,21 @@ def runCnfCase (line : String) : String × String :=
     | (.ok p, lr1) =>
       let (hdrAt, cur1) := at_ (data, 0) lr1
       -- drive clause by clause so that the look-ahead ghost can be reported per item
-      let rec drive (fuel : Nat) (p : Parser) (lr : LR) (cur : VBytes × Nat) (acc : List String) : List String × String × Nat :=
+      -- returns the items, the final outcome and the re-calls made on the state left behind
+      let rec drive (fuel : Nat) (p : Parser) (lr : LR) (cur : VBytes × Nat) (acc : List String) : List String × String × String :=
         match fuel with
-        | 0 => (acc.reverse, "E:panic", 0)
+        | 0 => (acc.reverse, "E:panic", "")
         | f + 1 =>
           match (p.nextClause).run lr with
           | (.ok (some c, p'), lr') =>
             let (a, cur') := at_ cur lr'
             drive f p' lr' cur' ((shortItem s!"C:{c.tag}:{showLits c.lits}" ++ a) :: acc)
-          | (.ok (none, _), _) => (acc.reverse, "END", 0)
-          | (.error e, _) => (acc.reverse, showPErr e, 1)
-      let (items, fin, _) := drive (data.length + 2) p lr1 cur1 []
+          | (.ok (none, p'), lr') => (acc.reverse, "END", cnfAgain recalls p' lr')
+          | (.error (.panic s), _) => (acc.reverse, showPErr (.panic s), "")
+          | (.error e, lr') => (acc.reverse, showPErr e, cnfAgain recalls p lr')
+      let (items, fin, again) := drive (data.length + 2) p lr1 cur1 []
       let hdr := showHeader fmt p.header ++ hdrAt
-      (joinObs (hdr :: items) fin,
+      (joinObs (hdr :: items) fin ++ again,
        s!"fmt={fmtS} hdr={b2s p.header.isSome} clauses={items.length} fin={fin.take 5} fault={b2s fault} multiline={b2s (decide (items.length + 2 < (data.filter (· == 10)).length))}")
 
 end Driver
